@@ -21,7 +21,12 @@ MANIFEST = {
             "table reproduced at knots, value between neighbouring knot values (also across the "
             "prime index), continuity at knots, extrapolation, range monotone, inverse-range ∘ range "
             "= id and range ∘ inverse-range = id, mean-loss bounds and monotonicity per branch, "
-            "geom ≤ true and true-from-geom between geom and true. Executed at Float the model must "
+            "0 ≤ geom ≤ true on every exit of MscStepToGeo (Eq. 8.10 closed form, Bernoulli), "
+            "true-from-geom between geom and true for every exit and exact on the small-step and "
+            "range-limited exits, GenericCalculator knots / between / inverse∘calc = id, and (for "
+            "every number type) find + 1 < size and monotonicity of find from monotone operations. "
+            "The model's constants are regenerated from the source text (tools/gen/calc.py -> "
+            "Generated/CalcConsts.lean, pinned by a decide). Executed at Float the model must "
             "reproduce the real classes bit-for-bit on generated tables (with/without prime index) "
             "at every knot ± 1 ulp, grid ends ± ulps, interior energies, steps in (0, range], MSC "
             "parameters. An impl-side oracle evaluates the property's inequalities on the real "
